@@ -160,6 +160,53 @@ impl<'a, T: ?Sized + PartialOrd> OptW<'a, T> {
     }
 }
 
+pub trait NoDisplayImpl {
+    fn opt_disp(&self) -> Option<[String; 6]> {
+        None
+    }
+}
+impl<'a, T: ?Sized> NoDisplayImpl for &OptW<'a, T> {}
+/// Display renderings under several format specs (every flag must reach the value)
+fn disps<T: std::fmt::Display + ?Sized>(t: &T) -> [String; 6] {
+    [format!("{}", t), format!("{:>8}", t), format!("{:08.3}", t), format!("{:+}", t), format!("{:<6.1}|", t), format!("{:^9}", t)]
+}
+impl<'a, T: ?Sized + std::fmt::Display> OptW<'a, T> {
+    pub fn opt_disp(&self) -> Option<[String; 6]> {
+        Some(disps(self.0))
+    }
+}
+
+/// Display is implemented by Arc only today; a Display impl that appears on another handle kind must
+/// render exactly like the value under every format spec.
+fn opt_display_checks(o: &Obs, bits: u32) {
+    let v = f64::from(f32::from_bits(bits));
+    let v = if v.is_finite() { v } else { 2.5 };
+    let want = disps(&v);
+    let a = Arc::new(v);
+    if disps(&a) != want {
+        o.fail("Display-spec", format!("Arc<f64> renders {:?}, the value {:?}", disps(&a), want));
+    }
+    let off = Arc::into_raw_offset(a.clone());
+    let bor = a.borrow_arc();
+    let u1: ArcUnion<f64, u32> = ArcUnion::from_first(a.clone());
+    let uq = triomphe::UniqueArc::new(v);
+    let t = ThinArc::from_header_and_slice(v, &[1u8]);
+    macro_rules! one {
+        ($h:expr, $n:expr) => {
+            if let Some(got) = (&OptW(&$h)).opt_disp() {
+                if got != want {
+                    o.fail("Display-spec", format!("{} implements Display and renders {:?}, the value {:?}", $n, got, want));
+                }
+            }
+        };
+    }
+    one!(off, "OffsetArc<f64>");
+    one!(bor, "ArcBorrow<f64>");
+    one!(u1, "ArcUnion<f64,u32>");
+    one!(uq, "UniqueArc<f64>");
+    let _ = &t;
+}
+
 macro_rules! opt_checks {
     ($o:expr, $a:expr, $b:expr, $eq:expr, $val_a:expr, $val_b:expr) => {{
         let (ha, hb) = ((&OptW(&$a)).opt_stream(), (&OptW(&$b)).opt_stream());
@@ -359,6 +406,7 @@ macro_rules! class_impl {
                         class_impl!(@partial $partial, o, a, b, tx.partial_cmp(&ty), lic, eq);
                         class_impl!(@total $total, o, a, b, tx, ty);
                         class_impl!(@hash $hash, o, a, b, stream(&tx), eq);
+                        class_impl!(@hashslice $hash, o, a, b);
                         class_impl!(@maps $total, $hash, o, a, tx, ty, eq_t);
                         class_impl!(@maxmin $total, o, a, b, tx, ty);
                         if format!("{:#?}", a) != format!("{:#?}", tx) {
@@ -377,6 +425,7 @@ macro_rules! class_impl {
                         class_impl!(@partial $partial, o, a, b, x.s[..].partial_cmp(&y.s[..]), lic, eq);
                         class_impl!(@total $total, o, a, b, x.s[..], y.s[..]);
                         class_impl!(@hash $hash, o, a, b, stream(&x.s[..]), eq);
+                        class_impl!(@hashslice $hash, o, a, b);
                     }
                     2 => {
                         let a = Arc::from_header_and_slice(x.h, &x.s);
@@ -390,6 +439,7 @@ macro_rules! class_impl {
                         class_impl!(@partial $partial, o, a, b, (x.h, &x.s[..]).partial_cmp(&(y.h, &y.s[..])), lic, eq);
                         class_impl!(@total $total, o, a, b, (x.h, &x.s[..]), (y.h, &y.s[..]));
                         class_impl!(@hash $hash, o, a, b, stream(&(x.h, &x.s[..])), eq);
+                        class_impl!(@hashslice $hash, o, a, b);
                     }
                     3 | 9 => {
                         // recorded length may disagree with the slice length (publicly constructible)
@@ -407,6 +457,7 @@ macro_rules! class_impl {
                             class_impl!(@partial_hwl $partial, o, a, b, (x.h, &x.s[..]).partial_cmp(&(y.h, &y.s[..])), lic, eq, d.rec_x == d.rec_y);
                             class_impl!(@total_hwl $total, o, a, b, (x.h, &x.s[..]), (y.h, &y.s[..]), d.rec_x == d.rec_y);
                             class_impl!(@hash $hash, o, a, b, stream(&bare), eq);
+                            class_impl!(@hashslice $hash, o, a, b);
                         } else {
                             let a = HeaderSlice { header: HeaderWithLength::new(x.h, d.rec_x), slice: x.s.clone() };
                             let b = HeaderSlice { header: HeaderWithLength::new(y.h, d.rec_y), slice: y.s.clone() };
@@ -433,6 +484,7 @@ macro_rules! class_impl {
                         class_impl!(@partial $partial, o, a, b, (x.h, &x.s[..]).partial_cmp(&(y.h, &y.s[..])), lic, eq);
                         class_impl!(@total $total, o, a, b, (x.h, &x.s[..]), (y.h, &y.s[..]));
                         class_impl!(@hash $hash, o, a, b, stream(&bare), eq);
+                        class_impl!(@hashslice $hash, o, a, b);
                     }
                     5 => {
                         let a = Arc::into_raw_offset(Arc::new(tx.clone()));
@@ -442,6 +494,7 @@ macro_rules! class_impl {
                             o.fail("Debug-spec", format!("{:?} vs {:?}", dbgs(&a), dbgs(&tx)));
                         }
                         opt_checks!(o, a, b, eq5, tx, ty);
+                        opt_display_checks(o, d.x.s.len() as u32 * 0x3f9e_3779 ^ 0x4020_0000);
                     }
                     6 => {
                         let aa = Arc::new(tx.clone());
@@ -528,6 +581,7 @@ macro_rules! class_impl {
                         class_impl!(@partial $partial, o, a, b, x.h.partial_cmp(&y.h), lic, eq);
                         class_impl!(@total $total, o, a, b, x.h, y.h);
                         class_impl!(@hash $hash, o, a, b, stream(&x.h), eq);
+                        class_impl!(@hashslice $hash, o, a, b);
                         class_impl!(@display $display, o, a, x.h);
                     }
                     _ => {
@@ -615,6 +669,28 @@ macro_rules! class_impl {
         }
     };
     (@maxmin no, $o:expr, $a:expr, $b:expr, $tx:expr, $ty:expr) => {};
+    (@hashslice yes, $o:expr, $a:expr, $b:expr) => {{
+        // a slice / Vec / array of handles hashes like any slice: length prefix, then every element's own stream
+        // (Hash::hash_slice is a provided method a handle type may override)
+        let mut want = RecHasher::default();
+        want.write_usize(3);
+        $a.hash(&mut want);
+        $a.hash(&mut want);
+        $b.hash(&mut want);
+        let got = stream(&[$a.clone(), $a.clone(), $b.clone()][..]);
+        if got != want.0 {
+            $o.fail("hash-slice", format!("a slice of three handles (one allocation twice, then another handle) feeds the hasher {:?}; the length prefix plus the three handles' own streams are {:?}", got, want.0));
+        }
+        let got_v = stream(&vec![$b.clone(), $a.clone()]);
+        let mut want_v = RecHasher::default();
+        want_v.write_usize(2);
+        $b.hash(&mut want_v);
+        $a.hash(&mut want_v);
+        if got_v != want_v.0 {
+            $o.fail("hash-slice", "a Vec of two handles does not hash as length prefix + elements".to_string());
+        }
+    }};
+    (@hashslice no, $o:expr, $a:expr, $b:expr) => {};
     (@hash yes, $o:expr, $a:expr, $b:expr, $ref_a:expr, $eq:expr) => {
         check_hash!($o, $a, $b, $ref_a, $eq);
     };
